@@ -161,7 +161,9 @@ def custom_cost(a=0.3, b=1.0, c=0.4):
 
 
 def make(kind, scale, setup):
-    if kind == "xy":
+    if kind == "xy-large":          # parameters (and their uncertainties) of the size of the data: uncertainties of 100 and more
+        f = XYFit([X, Y * scale], quad); f.add_error("y", 0.4 * scale)
+    elif kind == "xy":
         f = XYFit([X, Y * scale], lambda x, a=1.0, b=0.5, c=0.1: scale * (a * x * x * 0.1 + b * x + c)); f.add_error("y", 0.4 * scale)
     elif kind == "indexed":
         f = IndexedFit(Y * scale, lambda a=1.0, b=0.5, c=0.1: scale * (a * np.arange(6) ** 2 * 0.1 + b * np.arange(6) + c)); f.add_error(0.4 * scale)
@@ -181,8 +183,8 @@ def make(kind, scale, setup):
 
 
 def gen_rep(tier, seed):
-    for kind in ("xy", "indexed", "hist", "unbinned", "custom"):
-        for scale in ((1.0, 1e-4, 3e5) if kind in ("xy", "indexed") else (1.0,)):
+    for kind in ("xy", "xy-large", "indexed", "hist", "unbinned", "custom"):
+        for scale in ((1.0, 1e-4, 3e5) if kind in ("xy", "indexed") else (7e2, 3e5, 2e-3) if kind == "xy-large" else (1.0,)):
             for setup in ("free", "fixed", "fixed-then-released"):
                 for asym in (False, True):
                     yield {"kind": kind, "scale": scale, "setup": setup, "asymmetric": asym}
